@@ -6,7 +6,7 @@
    designated one.  The locked entry points run the same code inside the list's lock;
    their linearizability is an assumption here (the sequential behaviour of every
    entry point, locked or not, is tied to the model by the differential harness). *)
-From PV Require Import Base.Tac ListM.ListMDefs ListM.ListMProofs.
+From PV Require Import Base.Tac ListM.ListMDefs ListM.ListMProofs ListM.ListMConcDefs ListM.ListMConcProofs.
 From Coq Require Import Permutation.
 Local Open Scope Z_scope.
 
@@ -125,6 +125,45 @@ Theorem C31_sorted_pop_front_is_max : forall l x l', desc l -> pop_front l = (So
 Proof. exact pop_front_max. Qed.
 Print Assumptions C31_sorted_pop_front_is_max.
 
+(* ---- concurrent use of the locked entry points (ListMConcDefs.v) ----
+   Any number of threads, any programs of locked operations, EVERY schedule, with the
+   critical section of each operation atomic (the assumption on the lock) and the
+   unlocked emptiness pre-check of the pops a step of its own: the log of linearisation
+   points, replayed sequentially with the nolock operations from the initial list, gives
+   exactly the logged results and the current list; per thread the logged (operation,
+   result) pairs are what the thread has done so far, in program order.  Hence every
+   interleaving equals some sequential order of the operations. *)
+Theorem C31_locked_linearizable : forall l0 progs sched,
+  let c := crun (cinit l0 progs) sched in
+  replay l0 (log c) = (lst c, map snd (log c)) /\
+  forall t th, nth_error (thrs c) t = Some th ->
+    by_thread t (log c) = contributed th /\ nth_error progs t = Some (program_left th).
+Proof. exact locked_linearizable. Qed.
+Print Assumptions C31_locked_linearizable.
+
+(* a finished thread's part of the log is its whole program, with the results it returned *)
+Theorem C31_locked_complete : forall l0 progs sched t th,
+  let c := crun (cinit l0 progs) sched in
+  nth_error (thrs c) t = Some th -> todo th = [] ->
+  nth_error progs t = Some (map fst (by_thread t (log c))) /\
+  by_thread t (log c) = map (fun h => (fst (fst (fst h)), snd (fst (fst h)))) (hist th).
+Proof. exact locked_complete. Qed.
+Print Assumptions C31_locked_complete.
+
+Theorem C31_locked_mutual_exclusion : forall l0 progs sched t u tht thu,
+  let c := crun (cinit l0 progs) sched in
+  nth_error (thrs c) t = Some tht -> nth_error (thrs c) u = Some thu ->
+  held tht -> held thu -> t = u.
+Proof. exact locked_mutual_exclusion. Qed.
+Print Assumptions C31_locked_mutual_exclusion.
+
+(* under every schedule nothing is lost or duplicated *)
+Theorem C31_locked_conservation : forall l0 progs sched,
+  let c := crun (cinit l0 progs) sched in
+  Permutation (l0 ++ ins_of (log c)) (lst c ++ outs_of (log c)).
+Proof. exact locked_conservation. Qed.
+Print Assumptions C31_locked_conservation.
+
 (* non-vacuity: a sequence of order-preserving operations with ties from the empty state
    (hypotheses of C31_sorted_sequences hold), and what sort does to ties *)
 Example C31_example :
@@ -134,5 +173,12 @@ Example C31_example :
   Forall (fun o => keeps_sorted o = true /\ keeps_ring_sorted o = true) ops /\ all_sorted init /\
   l0 (fst (run init ops)) = [(5, 2); (1, 1); (3, 1); (6, 1); (8, 1); (7, 1); (4, 0)] /\
   snd (run init ops) = [RNone; RNone; RNone; RItem (2, 2); RNone; RNone; RNone; RNone; RRemoved (9, 2) (Some (5, 2))] /\
-  sort [(1, 2); (2, 2); (4, 2); (3, 1); (5, 0)] = [(5, 0); (3, 1); (4, 2); (2, 2); (1, 2)].
+  sort [(1, 2); (2, 2); (4, 2); (3, 1); (5, 0)] = [(5, 0); (3, 1); (4, 2); (2, 2); (1, 2)] /\
+  (* two threads appending concurrently, the second overtakes the first between its
+     prelude and its lock acquisition; a busy try_pop *)
+  (let c := crun (cinit [(1, 0)] [[CPushBack (2, 0); CPopBack false]; [CPushBack (3, 0); CPopFront true]])
+                 [0; 1; 1; 1; 0; 1; 1; 0; 0; 0; 0]%nat in
+   lst c = [(1, 0); (3, 0)] /\ lock c = None /\
+   log c = [(1%nat, CPushBack (3, 0), CNone); (0%nat, CPushBack (2, 0), CNone); (1%nat, CPopFront true, CBusy);
+            (0%nat, CPopBack false, CItem (2, 0))]).
 Proof. vm_compute. repeat split; repeat constructor. Qed.
